@@ -49,3 +49,10 @@ func (n *Node) EthTxNonce(from *Account, to *types.Address, value *big.Int, gas 
 //	runtime: 6000 35 80 6000 55 6000 1a 60ff 14 6011 57 00 5b 6000 6000 fd
 var StoreContractInit = append([]byte{0x60, 0x17, 0x80, 0x60, 0x0b, 0x60, 0x00, 0x39, 0x60, 0x00, 0xf3},
 	[]byte{0x60, 0x00, 0x35, 0x80, 0x60, 0x00, 0x55, 0x60, 0x00, 0x1a, 0x60, 0xff, 0x14, 0x60, 0x11, 0x57, 0x00, 0x5b, 0x60, 0x00, 0x60, 0x00, 0xfd}...)
+
+// KillContractInit is the init code of a 21-byte contract: a call whose first calldata byte is 0xaa self-destructs the
+// contract in favour of the caller, any other call emits an anonymous log of 32 bytes.
+//
+//	runtime: 6000 35 6000 1a 60aa 14 6012 57 6020 6000 a0 00 5b 33 ff
+var KillContractInit = append([]byte{0x60, 0x15, 0x80, 0x60, 0x0b, 0x60, 0x00, 0x39, 0x60, 0x00, 0xf3},
+	[]byte{0x60, 0x00, 0x35, 0x60, 0x00, 0x1a, 0x60, 0xaa, 0x14, 0x60, 0x12, 0x57, 0x60, 0x20, 0x60, 0x00, 0xa0, 0x00, 0x5b, 0x33, 0xff}...)
